@@ -79,28 +79,43 @@ Section Cfg.
     forall j b vs e s, nth_error bmap j = Some b -> run k g j vs e s <> RFuel ->
       exists k', run k' f b vs e s = run k g j vs e s.
 
-  Lemma target_sim k e s tg tf : sim k -> map_target bmap tg tf = true ->
+  Lemma target_sim k e s tg : sim k -> forall c tf, map_target_fuel c f bmap tg tf = true ->
     match evals e (snd tg) with Some ws => run k g (fst tg) ws e s | None => RStuck end <> RFuel ->
     exists k', match evals e (snd tf) with Some ws => run k' f (fst tf) ws e s | None => RStuck end =
                match evals e (snd tg) with Some ws => run k g (fst tg) ws e s | None => RStuck end.
   Proof.
-    intros Hsim Hm Hn. unfold map_target in Hm. destruct (nth_error bmap (fst tg)) as [b|] eqn:Hb; [|discriminate].
-    apply andb_true_iff in Hm. destruct Hm as [Hb' Hargs]. apply Nat.eqb_eq in Hb'.
-    apply (list_eqb_eq _ op_eqb_eq) in Hargs. rewrite <- Hargs, <- Hb'.
-    destruct (evals e (snd tg)) as [ws|]; [|exists O; reflexivity].
-    exact (Hsim _ _ ws e s Hb Hn).
+    intros Hsim. induction c as [|c IHc]; intros tf Hm Hn; cbn [map_target_fuel] in Hm; apply orb_true_iff in Hm.
+    - destruct Hm as [Hm | Hm]; [|discriminate].
+      unfold direct_target in Hm. destruct (nth_error bmap (fst tg)) as [b|] eqn:Hb; [|discriminate].
+      apply andb_true_iff in Hm. destruct Hm as [Hb' Hargs]. apply Nat.eqb_eq in Hb'.
+      apply (list_eqb_eq _ op_eqb_eq) in Hargs. rewrite <- Hargs, <- Hb'.
+      destruct (evals e (snd tg)) as [ws|]; [|exists O; reflexivity].
+      exact (Hsim _ _ ws e s Hb Hn).
+    - destruct Hm as [Hm | Hm].
+      + unfold direct_target in Hm. destruct (nth_error bmap (fst tg)) as [b|] eqn:Hb; [|discriminate].
+        apply andb_true_iff in Hm. destruct Hm as [Hb' Hargs]. apply Nat.eqb_eq in Hb'.
+        apply (list_eqb_eq _ op_eqb_eq) in Hargs. rewrite <- Hargs, <- Hb'.
+        destruct (evals e (snd tg)) as [ws|]; [|exists O; reflexivity].
+        exact (Hsim _ _ ws e s Hb Hn).
+      + destruct (snd tf) eqn:Hargs; [|discriminate].
+        destruct (nth_error f (fst tf)) as [blk|] eqn:Hblk; [|discriminate].
+        destruct (b_params blk) eqn:Hps; [|discriminate]. destruct (b_body blk) eqn:Hbody; [|discriminate].
+        destruct (b_term blk) as [| t2 | |] eqn:Hterm; try discriminate.
+        destruct (IHc t2 Hm Hn) as [k1 Hk1]. exists (S k1).
+        cbn [Spec.evals]. rewrite run_unfold, Hblk, Hps. cbn [bind_params].
+        unfold block_step. rewrite Hbody, Hterm. cbn [Spec.exec_body term_step]. exact Hk1.
   Qed.
 
-  Lemma term_sim k e s tg tf : sim k -> map_term bmap tg tf = true ->
+  Lemma term_sim k e s tg tf : sim k -> map_term f bmap tg tf = true ->
     term_step k g e s tg <> RFuel -> exists k', term_step k' f e s tf = term_step k g e s tg.
   Proof.
     intros Hsim Hm Hn. destruct tg as [l o | t | c t1 t2 | l os], tf as [l' o' | t' | c' t1' t2' | l' os']; try discriminate; cbn [map_term] in Hm.
     - apply andb_true_iff in Hm. destruct Hm as [Hl Ho]. apply N.eqb_eq in Hl. apply op_eqb_eq in Ho. subst. exists O. reflexivity.
-    - cbn [term_step] in *. apply (target_sim k e s t t' Hsim Hm Hn).
+    - cbn [term_step] in *. apply (target_sim k e s t Hsim _ t' Hm Hn).
     - apply andb_true_iff in Hm. destruct Hm as [Hm Ht2]. apply andb_true_iff in Hm. destruct Hm as [Hc Ht1].
       apply op_eqb_eq in Hc. subst c'. cbn [term_step] in *.
       destruct (eval e c) as [cv|]; [|exists O; reflexivity].
-      destruct (truthy cv); [apply (target_sim k e s t1 t1' Hsim Ht1 Hn) | apply (target_sim k e s t2 t2' Hsim Ht2 Hn)].
+      destruct (truthy cv); [apply (target_sim k e s t1 Hsim _ t1' Ht1 Hn) | apply (target_sim k e s t2 Hsim _ t2' Ht2 Hn)].
     - apply andb_true_iff in Hm. destruct Hm as [Hl Ho]. apply N.eqb_eq in Hl. apply (list_eqb_eq _ op_eqb_eq) in Ho. subst. exists O. reflexivity.
   Qed.
 
